@@ -103,6 +103,31 @@ def envelopeOp : List String → String
   | [_, _, "PANIC"] => propfail "panic"
   | _ => "BADLINE"
 
+/-- `envhdrs <from> <to> <cc> <bcc> | direct built`: the envelope derived from a header map (`Envelope::try_from(&Headers)`) and
+    by the message builder, where a recipient field is absent (`x`), present with an empty list (`-`) or a list: an envelope
+    never has an empty recipient list, and when there are recipients and a From it is exactly From and To, Cc, Bcc in order -/
+def envhdrsOp : List String → String
+  | [from_, to, cc, bcc, direct, built] =>
+    if direct == "PANIC" || built == "PANIC" then propfail "panic" else
+    let lst (s : String) : Option (List Bytes) := if s == "x" || s == "-" then some [] else hexList s
+    match lst to, lst cc, lst bcc with
+    | some t, some c, some b =>
+      let all := t ++ c ++ b
+      let judge (what res : String) : Option String :=
+        match res.splitOn ":" with
+        | ["ok", f, rc] =>
+          if rc == "-" || rc == "" then some s!"envelope-without-recipients-{what}"
+          else if hexList rc != some all then some s!"envelope-recipients-differ-{what}"
+          else if from_ != "-" && f != from_ then some s!"envelope-reverse-path-differs-{what}"
+          else none
+        | _ => if all != [] && from_ != "-" then some s!"envelope-refused-although-complete-{what}" else none
+      match judge "from-headers" direct, judge "from-builder" built with
+      | some e, _ => propfail e
+      | _, some e => propfail e
+      | none, none => "ok"
+    | _, _, _ => "BADLINE"
+  | l => if l.contains "PANIC" then propfail "panic" else "BADLINE"
+
 /-- `envjson <json> | res`: however an envelope comes into being, it has a recipient -/
 def envjsonOp : List String → String
   | [_js, res] =>
